@@ -23,6 +23,7 @@ EXPECTED_IMPL_CLASSES = {
     "iso_from:iso_type_leak", "iso_from:coerced_values+iso_type_leak",
     "iso_to:autoinsert_skipped_item_absent_from_file", "type_to:overwrite_of_absent_reports_success",
     "iso_del:retrieved_isotherm_has_another_id", "isotherm_property_type:table_never_created",
+    "iso_to:autoinsert_duplicates_item_present_in_file",
 }
 
 
@@ -42,7 +43,7 @@ def parse_printed(out, tag):
 
 def design_checks(run, thorough):
     r1 = tlc.must_pass("StoreMC", cfg="StoreMC_spec1t" if thorough else "StoreMC_spec1", timeout=600, workers=8)
-    r2 = tlc.must_pass("StoreMC", cfg="StoreMC_spec2t" if thorough else "StoreMC_spec2", timeout=900, workers=8)
+    r2 = tlc.must_pass("StoreMC", cfg="StoreMC_spec2", timeout=900, workers=8)
     if r1["distinct"] < 30000 or r2["distinct"] < 10000 or r1["queue"] or r2["queue"]:
         raise MachineryError(f"StoreMC explored too little: {r1['distinct']} / {r2['distinct']} states")
     run.set(states=r1["distinct"] + r2["distinct"], transitions=r1["states_generated"] + r2["states_generated"],
@@ -90,6 +91,9 @@ def scripted():
     H.append(("explicit_items_second_file", [o("mat_to", "d1", "M1", "m1", ai=True), o("ads_to", "d1", "A1", "a0", ai=True), o("iso_to", "d1", "I1"),
                                              o("mat_to", "d2", "M1", "m1", ai=True), o("ads_to", "d2", "A1", "a0", ai=True), o("iso_to", "d2", "I1"),
                                              o("iso_from", "d2", cm="M1"), o("iso_from", "d2", cm="M2"), o("iso_from", "d2", ca="A1"), o("iso_from", "d2", cm="M1", ca="A2")]))
+    # a later session on the same file
+    H.append(("new_session", [o("iso_to", "d1", "I1", am=True, aa=True), o("session"), o("iso_from", "d1"), o("iso_to", "d1", "I3", am=True, aa=True),
+                              o("iso_to", "d1", "I3"), o("iso_to", "d1", "I2", am=True, aa=True), o("iso_to", "d1", "I2", am=True), o("iso_from", "d1")]))
     # references
     H.append(("references", [o("iso_to", "d1", "I1"), o("iso_to", "d1", "I1", am=True), o("iso_to", "d1", "I1", aa=True), o("mats_from", "d1"), o("ads_from", "d1"),
                              o("iso_to", "d1", "I1", am=True, aa=True), o("mat_del", "d1", "M1", by="obj"), o("ads_del", "d1", "A1", by="name"),
@@ -174,13 +178,10 @@ def judge(run, name, hist_ops, rec, res, ans, step):
     sig = {"site": site, "clause": clause, "impl_class": ans["impl_class"]}
     if clause == "outcome":
         sig["observed"] = rec["out"] + (":" + res["exc"] if rec["out"] == "error" else "")
-        sig["expected"] = "|".join(sorted(ans["allowed_out"]))
         if o["op"] == "iso_del":
             sig["argument"] = o["by"]
             if o["by"] == "retrieved":
                 sig["id_differs_by"] = res["extra"].get("id_diff", "")
-        if o["op"] == "iso_to":
-            sig["autoinsert"] = ("material" if o["am"] else "") + ("+adsorbate" if o["aa"] else "")
     elif clause == "effect":
         sig["observed"] = rec["out"] + " changing " + field_diff(rec["pre"][o["d"]], rec["post"][o["d"]])
         exp = ans["spec_post"][0] if ans["spec_post"] else rec["pre"][o["d"]]
@@ -192,13 +193,15 @@ def judge(run, name, hist_ops, rec, res, ans, step):
         exp = ans["spec_ret"]
         wrong = sorted({f"{_tok(exp.get(k))}>{_tok(v)}" for k, v in rec["ret"].items() if exp.get(k) != v}
                        | {f"{_tok(v)}>missing" for k, v in exp.items() if k not in rec["ret"]})
+        iret = ans["impl_ret"] if isinstance(ans["impl_ret"], dict) else {}
+        predicted = {f"{_tok(exp.get(k))}>{_tok(v)}" for k, v in iret.items() if exp.get(k) != v}
         for w in wrong:
-            s = dict(sig)
-            s["observed"] = w
+            s = {"site": site, "clause": clause, "observed": w, "impl_class": "predicted by Impl" if w in predicted else "not predicted by Impl"}
             run.violation(s, {"history": name, "step": step, "ops": hist_ops[:step + 1], "record": rec, "answer": ans, "message": res["msg"],
                               "diffs": res["extra"].get("diffs")})
         return
-    run.violation(sig, {"history": name, "step": step, "ops": hist_ops[:step + 1], "record": rec, "answer": ans, "message": res["msg"], "exception": res["exc"]})
+    run.violation(sig, {"history": name, "step": step, "ops": hist_ops[:step + 1], "record": rec, "answer": ans, "message": res["msg"], "exception": res["exc"],
+                        "allowed_outcomes": sorted(ans["allowed_out"])})
 
 
 def bulk_history(n):
@@ -251,10 +254,10 @@ def main(tier, seed):
 
     scratch = tlc.scratch("c08-")
     try:
-        sess = sc.Session(os.path.join(scratch, "db"))
+        sess = sc.Session(sc.db_scratch(scratch, "db"))
         try:
             histories = [("witness:" + cls, h) for cls, h in witnesses] + scripted()
-            nsim = 3000 if thorough else 150
+            nsim = 2000 if thorough else 120
             sim = tlc.simulate("StoreMC", "StoreMC_sim", nsim, 40, seed + 1, timeout=600)
             gen = [h for _, h in parse_printed(sim["out"], "HIST")]
             seen, uniq = set(), []
@@ -274,7 +277,7 @@ def main(tier, seed):
         if thorough:
             bulk = bulk_history(230)
             try:
-                sess = sc.Session(os.path.join(scratch, "dbbulk"))
+                sess = sc.Session(sc.db_scratch(scratch, "dbbulk"))
                 try:
                     o = sc.op
                     hb = [o("iso_to", "d1", k, am=True, aa=True) for k in bulk]
